@@ -544,6 +544,7 @@ pub fn run_handoff(args: &Args) -> Report {
     let mut i = 0u64;
     let mut handoffs = 0u64;
     let mut with_res = 0u64;
+    let mut reuses = 0u64;
     while Instant::now() < deadline {
         i += 1;
         let mut rng = master.fork(i);
@@ -569,6 +570,12 @@ pub fn run_handoff(args: &Args) -> Report {
             collect(&mut rep, "C07", &sc, &h);
             continue;
         }
+        // ---- variant (every third hand-off): the original itself is rebuilt from the buffers its own
+        //      `metadata()` returns ("metadata buffers returned for reuse"): they must be exactly the caller's
+        //      buffers, and the rebuilt allocator must be indistinguishable (it then plays the "original" in
+        //      the lock-step below, against the byte copy taken before)
+        let reuse = rng.chance(1, 3);
+        let before_reuse = if reuse { Some(observe(h.sut.a(), frames, 0) + &observe_trees(h.sut.a(), frames.div_ceil(TREE_FRAMES))) } else { None };
         // ---- hand-off: byte copies of the three buffers, assume-initialised construction
         let place = default_place(hseed >> 3);
         let copy = {
@@ -590,6 +597,40 @@ pub fn run_handoff(args: &Args) -> Report {
             }
         };
         let Some(copy) = copy else { continue };
+        if let Some(before) = before_reuse {
+            let mut orig = h.sut.alloc.take().expect("allocator");
+            let md = unsafe { orig.metadata() };
+            let same = |s: &[u8], b: &Buf| s.as_ptr() as usize == b.addr() && s.len() == b.len();
+            let mut bad: Option<String> = None;
+            if !(same(md.local, &h.sut.local) && same(md.trees, &h.sut.trees) && same(md.lower, &h.sut.lower)) {
+                bad = Some(format!(
+                    "metadata() does not return the caller's buffers: local {:#x}+{} (given {:#x}+{}), trees {:#x}+{} (given {:#x}+{}), lower {:#x}+{} (given {:#x}+{})",
+                    md.local.as_ptr() as usize, md.local.len(), h.sut.local.addr(), h.sut.local.len(),
+                    md.trees.as_ptr() as usize, md.trees.len(), h.sut.trees.addr(), h.sut.trees.len(),
+                    md.lower.as_ptr() as usize, md.lower.len(), h.sut.lower.addr(), h.sut.lower.len()
+                ));
+            }
+            drop(orig);
+            if bad.is_none() {
+                let classing = cfg.classing();
+                match catch(|| LLFree::new(frames, Init::None, &classing, md)) {
+                    Ok(Ok(a2)) => {
+                        h.sut.alloc = Some(a2);
+                        let after = observe(h.sut.a(), frames, 0) + &observe_trees(h.sut.a(), frames.div_ceil(TREE_FRAMES));
+                        if after != before {
+                            bad = Some("the allocator rebuilt (Init::None) from the buffers returned by metadata() reports different statistics than before".into());
+                        }
+                    }
+                    r => bad = Some(format!("LLFree::new(Init::None) over the buffers returned by metadata() -> {:?}", r.map(|r| r.map(|_| ())))),
+                }
+            }
+            reuses += 1;
+            if let Some(msg) = bad {
+                let v = crate::oracle::viol(&["C07"], msg.clone());
+                rep.violation("C07", &msg, || replay_json("C07", &sc, &h.opts, &h.log, &v).with("handoff_after", prefix));
+                continue;
+            }
+        }
         handoffs += 1;
         let ntrees = frames.div_ceil(TREE_FRAMES);
         if (0..ntrees).any(|t| h.sut.a().trees.stats_at(TreeId(t)).2) {
@@ -635,6 +676,7 @@ pub fn run_handoff(args: &Args) -> Report {
     }
     rep.add("handoffs", handoffs);
     rep.add("handoffs_with_reserved_trees", with_res);
+    rep.add("rebuilds_from_metadata()", reuses);
     rep
 }
 
